@@ -23,6 +23,7 @@ Reading guide (R = `deliverTx cfg tx s`, the model of `runTx` in a block):
 produced from it, `R.final` the state after the sweep (`MsgFeeInvoker.Invoke`).
 -/
 import PvProofs.Lemmas.TxfeeRun
+import PvProofs.Lemmas.TxfeeGov
 
 namespace PvProofs.C08
 open PvModel PvModel.Txfee PvModel.Fees PvProofs.TxfeeL
@@ -525,6 +526,205 @@ theorem successful_tx_uses_grant_for_declared_fee (cfg : Cfg) (tx : Tx) (s : St)
   refine ⟨a6, Coins.sub tx.fee m2.base, ?_, i5⟩
   intro d; simp [hb, a2 d]
 
+/-! ### The configuration in force: genesis params changed by governance messages only
+
+"The floor gas price" a failed transaction pays, and "the configured recipient and basis-point
+split", are those of the configuration in force.  That configuration is what the chain was set
+up with, changed by passed governance proposals through the five x/msgfees messages
+(`govHandle`, `execProposal`, `passProposal`, `applyGov`: the keeper's handlers and gov's
+all-or-nothing execution).  The reference (`govSays`, `refProposal`, `refGov` in TxfeeSpec) says
+what each message NAMES.  All theorems above hold for every configuration, hence for
+`(applyGov cfg ps).1`; the theorems below say what that configuration is. -/
+
+/-- One message handler leaves the floor gas price (and the fee collector) alone. -/
+theorem govHandle_keeps_floor {cfg cfg' : Cfg} {m : GovMsg} (h : govHandle cfg m = .ok cfg') :
+    cfg'.floor = cfg.floor ∧ cfg'.collector = cfg.collector := by
+  cases m with
+  | rate n => simp only [govHandle, updateNhashPerUsdMilParam] at h; cases h; exact ⟨rfl, rfl⟩
+  | denom d => simp only [govHandle, updateConversionFeeDenomParam] at h; cases h; exact ⟨rfl, rfl⟩
+  | add t f r b =>
+    simp only [govHandle, addMsgFee] at h
+    split_ifs at h
+    split at h
+    · cases h
+    · split at h
+      · cases h
+      · cases h; exact ⟨rfl, rfl⟩
+  | upd t f r b =>
+    simp only [govHandle, updateMsgFee] at h
+    split_ifs at h
+    split at h
+    · cases h
+    · split at h
+      · cases h
+      · cases h; exact ⟨rfl, rfl⟩
+  | rm t =>
+    simp only [govHandle, removeMsgFee] at h
+    split at h
+    · cases h
+    · cases h; exact ⟨rfl, rfl⟩
+
+theorem execProposal_keeps_floor {cfg cfg' : Cfg} {p : List GovMsg} (h : execProposal cfg p = .ok cfg') :
+    cfg'.floor = cfg.floor ∧ cfg'.collector = cfg.collector := by
+  induction p generalizing cfg with
+  | nil => simp only [execProposal] at h; cases h; exact ⟨rfl, rfl⟩
+  | cons m ms ih =>
+    simp only [execProposal] at h
+    cases hm : govHandle cfg m with
+    | error e => simp [hm] at h
+    | ok c =>
+      simp only [hm] at h
+      obtain ⟨h1, h2⟩ := govHandle_keeps_floor hm
+      obtain ⟨h3, h4⟩ := ih h
+      exact ⟨h3.trans h1, h4.trans h2⟩
+
+/-- **No governance proposal changes the floor gas price**: whatever sequence of proposals
+(usd-rate updates, conversion-denom updates, message fees added / updated / removed, passing or
+failing) is executed, the floor gas price in force is still the one the chain was set up with. -/
+theorem governance_never_changes_floor_price (cfg : Cfg) (ps : List (List GovMsg)) :
+    (applyGov cfg ps).1.floor = cfg.floor ∧ (applyGov cfg ps).1.collector = cfg.collector := by
+  induction ps generalizing cfg with
+  | nil => exact ⟨rfl, rfl⟩
+  | cons p ps ih =>
+    simp only [applyGov]
+    have hp : (passProposal cfg p).1.floor = cfg.floor ∧ (passProposal cfg p).1.collector = cfg.collector := by
+      unfold passProposal
+      cases he : execProposal cfg p with
+      | error e => exact ⟨rfl, rfl⟩
+      | ok c => exact execProposal_keeps_floor he
+    obtain ⟨h1, h2⟩ := ih (passProposal cfg p).1
+    exact ⟨h1.trans hp.1, h2.trans hp.2⟩
+
+/-- A proposal is all or nothing: when one of its messages is refused, nothing any earlier
+message of it did stays. -/
+theorem failed_proposal_changes_nothing (cfg : Cfg) (p : List GovMsg)
+    (h : (passProposal cfg p).2 = false) : (passProposal cfg p).1 = cfg := by
+  unfold passProposal at h ⊢
+  cases he : execProposal cfg p with
+  | error e => rfl
+  | ok c => simp [he] at h
+
+/-- **A governance message changes what it names and nothing else**: after a handler succeeded,
+the configuration charges exactly like the one the message describes — usd rate, conversion
+denom, or ONE entry of the schedule (with `DetermineBips`' defaults); every other param and every
+other message type's fee are as before.  Stated up to `Cfg.same` on both sides so that it chains. -/
+theorem gov_message_changes_only_what_it_names {cfg ref cfg' : Cfg} {m : GovMsg}
+    (hs : Cfg.same cfg ref) (h : govHandle cfg m = .ok cfg') : Cfg.same cfg' (govSays ref m) := by
+  obtain ⟨s1, s2, s3, s4, s5⟩ := hs
+  have s5' : ∀ t, lk cfg.sched t = lk ref.sched t := fun t => by
+    rw [← lookupFee_eq, ← lookupFee_eq]; exact s5 t
+  cases m with
+  | rate n =>
+    simp only [govHandle, updateNhashPerUsdMilParam] at h; cases h
+    exact ⟨s1, s2, rfl, s4, s5⟩
+  | denom d =>
+    simp only [govHandle, updateConversionFeeDenomParam] at h; cases h
+    exact ⟨s1, rfl, s3, s4, s5⟩
+  | add t f r b =>
+    simp only [govHandle, addMsgFee] at h
+    split_ifs at h
+    split at h
+    · cases h
+    · split at h
+      · cases h
+      · rename_i n hb
+        cases h
+        refine ⟨s1, s2, s3, s4, fun t' => ?_⟩
+        simp only [lookupFee_eq, govSays]
+        rw [lk_setMsgFee, lk_says_set, s5' t', determineBips_ok r b n hb]
+  | upd t f r b =>
+    simp only [govHandle, updateMsgFee] at h
+    split_ifs at h
+    split at h
+    · cases h
+    · split at h
+      · cases h
+      · rename_i n hb
+        cases h
+        refine ⟨s1, s2, s3, s4, fun t' => ?_⟩
+        simp only [lookupFee_eq, govSays]
+        rw [lk_setMsgFee, lk_says_set, s5' t', determineBips_ok r b n hb]
+  | rm t =>
+    simp only [govHandle, removeMsgFee] at h
+    split at h
+    · cases h
+    · cases h
+      refine ⟨s1, s2, s3, s4, fun t' => ?_⟩
+      simp only [lookupFee_eq, govSays]
+      rw [lk_filter, lk_filter, s5' t']
+
+theorem execProposal_refines {cfg ref cfg' : Cfg} {p : List GovMsg}
+    (hs : Cfg.same cfg ref) (h : execProposal cfg p = .ok cfg') : Cfg.same cfg' (p.foldl govSays ref) := by
+  induction p generalizing cfg ref with
+  | nil => simp only [execProposal] at h; cases h; exact hs
+  | cons m ms ih =>
+    simp only [execProposal] at h
+    cases hm : govHandle cfg m with
+    | error e => simp [hm] at h
+    | ok c =>
+      simp only [hm] at h
+      exact ih (gov_message_changes_only_what_it_names hs hm) h
+
+/-- **The keeper's handlers implement the reference**: the configuration the msgfees handlers
+produce from any sequence of proposals charges exactly like the reference configuration — the
+set-up configuration changed in what the PASSED proposals' messages name, in order, and in
+nothing else (a failed proposal contributes nothing). -/
+theorem governance_refines_reference (cfg ref : Cfg) (ps : List (List GovMsg)) (hs : Cfg.same cfg ref) :
+    Cfg.same (applyGov cfg ps).1 (refGov ref ps (applyGov cfg ps).2) := by
+  induction ps generalizing cfg ref with
+  | nil => exact hs
+  | cons p ps ih =>
+    simp only [applyGov, refGov]
+    apply ih
+    unfold passProposal refProposal
+    cases he : execProposal cfg p with
+    | error e => simpa using hs
+    | ok c => simpa using execProposal_refines hs he
+
+/-- The reference itself never moves the floor price either. -/
+theorem reference_floor_is_configured_floor (cfg : Cfg) (ps : List (List GovMsg)) (bs : List Bool) :
+    (refGov cfg ps bs).floor = cfg.floor := by
+  have hsays : ∀ (p : List GovMsg) (c : Cfg), (p.foldl govSays c).floor = c.floor := by
+    intro p
+    induction p with
+    | nil => intro c; rfl
+    | cons m ms ih => intro c; simp only [List.foldl_cons]; rw [ih]; cases m <;> rfl
+  have prop : ∀ (p : List GovMsg) (c : Cfg) (b : Bool), (refProposal c p b).floor = c.floor := by
+    intro p c b; unfold refProposal; cases b <;> simp [hsays]
+  induction ps generalizing cfg bs with
+  | nil => rfl
+  | cons p ps ih =>
+    cases bs with
+    | nil => simp only [refGov]; rw [ih, prop]
+    | cons b bs => simp only [refGov]; rw [ih, prop]
+
+/-- **A failed transaction after any governance history pays the CONFIGURED floor price.**  The
+chain was set up with `cfg0`; proposals `ps` were executed (usd-rate updates included); a
+transaction that then passes the ante handler and fails is debited exactly
+`cfg0.floor × gas limit`, to the fee collector, and nothing else changes. -/
+theorem failed_tx_after_governance_pays_configured_floor (cfg0 : Cfg) (ps : List (List GovMsg))
+    (tx : Tx) (s : St) (e : Err)
+    (h : (deliverTx (applyGov cfg0 ps).1 tx s).outcome = .failed e) (a : Addr) (d : Denom) :
+    (deliverTx (applyGov cfg0 ps).1 tx s).final.ledger.bal a d =
+      s.ledger.bal a d + feeDeltaOnFailure cfg0.collector tx.from (baseFee cfg0.floor tx.gas) a d := by
+  obtain ⟨hf, hc⟩ := governance_never_changes_floor_price cfg0 ps
+  have := (failed_tx_charges_base_fee_only (applyGov cfg0 ps).1 tx s e h).1 a d
+  rw [hf, hc] at this
+  exact this
+
+/-- … and the mempool check after any governance history demands the CONFIGURED floor price: a
+declared fee below `cfg0.floor × gas` + the top-level message fees of the schedule then in force
+is rejected on arrival and on recheck, uncharged. -/
+theorem under_declared_fee_after_governance_is_rejected (cfg0 : Cfg) (ps : List (List GovMsg))
+    (tx : Tx) (s : St) (hfee : ∀ d, 0 ≤ Coins.amountOf tx.fee d) (ds : List Denom)
+    (h : covered tx.fee (baseFee cfg0.floor tx.gas) (topIncurred (applyGov cfg0 ps).1 tx.top) ds = false) :
+    ((checkTx (applyGov cfg0 ps).1 tx s).2 ≠ none ∧ (checkTx (applyGov cfg0 ps).1 tx s).1 = s) ∧
+    ((recheckTx (applyGov cfg0 ps).1 tx s).2 ≠ none ∧ (recheckTx (applyGov cfg0 ps).1 tx s).1 = s) := by
+  apply under_declared_fee_is_rejected _ tx s hfee ds
+  unfold admissible
+  rw [(governance_never_changes_floor_price cfg0 ps).1]
+  exact h
+
 /-! ### Non-vacuity: concrete transactions that meet the hypotheses -/
 
 section Examples
@@ -597,6 +797,18 @@ example : (life exCfg exCfgDown true false exTx exSt).inMempool = true ∧
     ((life exCfg exCfgDown true false exTx exSt).run.map (·.outcome.isOk)) = some true := by decide
 example : ∀ d, 0 ≤ Coins.amountOf exTx.fee d := by
   intro d; simp only [exTx, Coins.amountOf]; split_ifs <;> omega
+
+
+-- governance: a usd-rate update, a refused removal, an added fee; the floor price stays 2nhash
+def exGov : List (List GovMsg) :=
+  [[.rate 30], [.add "pay" ("nhash", 3) "Q" none, .rm "nosuchtype"], [.upd "send" ("hotdog", 12) "R2" (some 0)]]
+example : (applyGov exCfg exGov).2 = [true, false, true] := by decide
+example : (applyGov exCfg exGov).1.floor = ("nhash", 2) ∧ (applyGov exCfg exGov).1.nhashPerUsdMil = 30 ∧
+    (lookupFee (applyGov exCfg exGov).1 "pay").isNone = true ∧
+    ((lookupFee (applyGov exCfg exGov).1 "send").map (·.bips)) = some 0 := by decide
+example : govHandle exCfg (.rate 30) = .ok { exCfg with nhashPerUsdMil := 30 } := rfl
+example : (passProposal exCfg [.add "pay" ("nhash", 3) "Q" none, .rm "nosuchtype"]).2 = false := by decide
+example : (deliverTx (applyGov exCfg exGov).1 { exTx with fee := [("hotdog", 12), ("nhash", 407)], steps := [.route { typ := "send" }, .effect (fun _ => .error .funds)] } exSt).outcome.isFailed = true := by decide
 
 end Examples
 
